@@ -554,9 +554,11 @@ pub fn parse_output_format(
 		}
 	};
 
-	let check_nonzero = &mut |value: usize| -> bool
+	let check_group = &mut |value: usize| -> bool
 	{
-		value > 0
+		// The listing formats pad their content column to the group size,
+		// and the formatting machinery cannot pad beyond this width
+		value > 0 && value <= u16::MAX as usize
 	};
 
 	let check_valid_base = &mut |base: usize| -> bool
@@ -581,7 +583,7 @@ pub fn parse_output_format(
 
 			"annotated" => OutputFormat::Annotated {
 				base: get_arg_usize("base", 16, check_valid_base)?,
-				group: get_arg_usize("group", 2, check_nonzero)?,
+				group: get_arg_usize("group", 2, check_group)?,
 			},
 
 			"annotatedhex" => OutputFormat::Annotated {
@@ -621,7 +623,7 @@ pub fn parse_output_format(
 
 			"tcgame" => OutputFormat::TCGame {
 				base: get_arg_usize("base", 16, check_2_or_16)?,
-				group: get_arg_usize("group", 2, check_nonzero)?,
+				group: get_arg_usize("group", 2, check_group)?,
 			},
 
 			"tcgamebin" => OutputFormat::TCGame {
